@@ -12,6 +12,7 @@ RULE = ("one case = (function family, scale decade 1e-6..1e9, bracket order, roo
         "non-degenerate bracket; distinct by (family, decade, dtype, tol class, order, seed)")
 ASSUMPTIONS = ["'inside the bracket' is required whenever a sign change exists or success is claimed (the no-root sentinel inf with success=False is accepted)",
                "'zero' is read with the property's own notion |f| <= tol"]
+RULE += " Strata added in the fourth seeding round: Batches solved before and after other public entry points of the library were used in the same process (purity)."
 FLOORS = {"quick": {"scalar_calls": 800, "vector_calls": 150, "sign_change_cases": 500, "steep_sign_change_cases": 100, "no_sign_change_cases": 100,
                     "mixed_vectors": 40, "insitu_contract_evaluations": 100, "calls_repeated_after_other_api_use": 150},
           "thorough": {"scalar_calls": 8000, "vector_calls": 1500, "sign_change_cases": 5000, "steep_sign_change_cases": 1000, "no_sign_change_cases": 1000,
